@@ -20,7 +20,7 @@ RULE = (
     "the relative path at which PyramidIO places that tile (a tile is really written there for sampled positions), distinct "
     "positions give distinct paths, FileType = the extension. (b) workflows: tile-study CLI (png/jpg input of generated size, "
     "with or without --fits-wcs) +- cascade CLI, tile-allsky CLI (depth 0-2, generated projection) +- cascade, FITS auto-tiling "
-    "toasty.tile_fits in TAN and TOAST mode, and the pipeline's process-todos with a harness image source (LXY scheme): "
+    "toasty.tile_fits in TAN and TOAST mode, and the pipeline's process-todos with a harness image source (LXY scheme, tiles + cascade): "
     "index_rel.wtml is parsed with xml.etree, the template expanded, and (i) every tile file on disk is the expansion of exactly "
     "one position with level <= TileLevels, (ii) every position the reference model (RefStudy / all TOAST tiles / filtered leaves) "
     "says is populated has its file at the expanded path, (iii) FileType is the files' extension, (iv) TileLevels = deepest "
@@ -275,6 +275,61 @@ def exec_workflow(case):
                     nt = True
                 compare_builder_with_wtml(bld, out, wf)
                 cls += [wf]
+            elif wf == "pipeline":
+                import yaml
+                import toasty.pipeline as tp
+                from toasty.image import ImageLoader
+                from toasty.merge import averaging_merger, cascade_images
+
+                if "vt-harness-c17" not in tp.IMAGE_SOURCE_CLASS_LOADERS:
+
+                    class Src(tp.ImageSource):
+                        @classmethod
+                        def get_config_key(cls):
+                            return "vt_harness_c17"
+
+                        @classmethod
+                        def deserialize(cls, data):
+                            return cls()
+
+                        def query_candidates(self):
+                            return iter(())
+
+                        def fetch_candidate(self, unique_id, cand_data_stream, cachedir):
+                            pass
+
+                        def process(self, unique_id, cand_data_stream, cachedir, builder):
+                            img = ImageLoader().load_path(os.path.join(cachedir, "image.png"))
+                            builder.tile_base_as_study(img)
+                            builder.default_tiled_study_astrometry()
+                            builder.make_placeholder_thumbnail()
+                            builder.set_name(unique_id)
+                            cascade_images(builder.pio, builder.imgset.tile_levels, averaging_merger, parallel=1)
+
+                    tp.IMAGE_SOURCE_CLASS_LOADERS["vt-harness-c17"] = lambda: Src
+                work = os.path.join(d, "work")
+                store = os.path.join(d, "store")
+                os.makedirs(os.path.join(work, "candidates"))
+                os.makedirs(store)
+                with open(os.path.join(work, "toasty-store-config.yaml"), "w") as f:
+                    yaml.safe_dump({"_type": "local", "path": store}, f)
+                with open(os.path.join(work, "toasty-pipeline-config.yaml"), "w") as f:
+                    yaml.safe_dump({"source_type": "vt-harness-c17", "vt_harness_c17": {}}, f)
+                w, h = case["size"]
+                uid = "img_%d" % case["salt"]
+                os.makedirs(os.path.join(work, "cache_todo", uid))
+                PILImage.fromarray(make_rgb(w, h, case["salt"])).save(os.path.join(work, "cache_todo", uid, "image.png"))
+                open(os.path.join(work, "candidates", uid), "wb").close()
+                with toasty_call("workflow", "pipeline process-todos"):
+                    tp.PipelineManager(work).process_todos()
+                pos, L = study_positions(w, h, True)
+                outd = os.path.join(work, "processed", uid)
+                check_wtml_vs_disk(outd, pos, f"pipeline process-todos of a {w}x{h} image (LXY scheme)", L)
+                iset, _pl = parse_wtml(os.path.join(outd, "index_rel.wtml"))
+                if "/" in iset.attrib.get("Url", ""):
+                    raise Violation("url-vs-disk", f"pipeline: LXY scheme expected, Url is {iset.attrib.get('Url')!r}")
+                cls += [f"levels{L}", "LXY"]
+                nt = L >= 1
             elif wf == "tile_fits_tan_multi":
                 import toasty
                 from .. import mtgen
@@ -341,7 +396,7 @@ def compare_builder_with_wtml(bld, out, what):
 def strat_workflow(draw, tier):
     from .. import wcsgen
 
-    wf = draw(st.sampled_from(["tile-study", "tile-study", "tile-allsky", "tile_fits_tan", "tile_fits_toast", "tile_fits_tan_multi"]))
+    wf = draw(st.sampled_from(["tile-study", "tile-study", "tile-allsky", "tile_fits_tan", "tile_fits_toast", "tile_fits_tan_multi", "pipeline"]))
     case = {"workflow": wf, "salt": draw(st.integers(0, 50))}
     # (images of a few pixels cannot be thumbnailed by PIL; that is not this property's subject)
     small = st.one_of(st.integers(48, 700), st.sampled_from([256, 257, 512, 513, 300]))
@@ -354,6 +409,8 @@ def strat_workflow(draw, tier):
     elif wf == "tile-allsky":
         case.update(depth=draw(st.integers(0, 2)), cascade=draw(st.booleans()),
                     projection=draw(st.sampled_from(["plate-carree", "plate-carree-galactic", "plate-carree-ecliptic", "plate-carree-planet", "plate-carree-planet-zeroleft", "plate-carree-planet-zeroright", "plate-carree-panorama"])))
+    elif wf == "pipeline":
+        case.update(size=[draw(small), draw(small)])
     elif wf == "tile_fits_tan_multi":
         from .. import mtgen
 
